@@ -8,6 +8,9 @@ import PacketVerif.Drv.Ndp
 import PacketVerif.Drv.Icmp6Hunt
 import PacketVerif.Drv.ArpHunt
 import PacketVerif.Drv.Fastlog
+import PacketVerif.Drv.Dhcp4Srv
+import PacketVerif.Drv.Dhcp4File
+import PacketVerif.Drv.Dhcp4Opt
 open PV
 
 /-- dispatch one protocol line to the module that knows the op -/
@@ -25,7 +28,10 @@ def dispatch (line : String) : String :=
       Drv.Ndp.handle,
       Drv.Icmp6Hunt.handle,
       Drv.ArpHunt.handle,
-      Drv.Fastlog.handle
+      Drv.Fastlog.handle,
+      Drv.Dhcp4Srv.handle,
+      Drv.Dhcp4File.handle,
+      Drv.Dhcp4Opt.handle
     ]
     match hs.findSome? (fun h => h cmd args) with
     | some r => r
